@@ -557,6 +557,69 @@ def run_foreign_assign_case(sh, case):
     G.unload(mod)
 
 
+GRID_SRC = """
+from pymtl3 import *
+class GLeaf(Component):
+  def construct(s):
+    s.in_ = InPort(8); s.out = OutPort(8); s.w = [Wire(4) for _ in range(2)]
+    s.out //= s.in_
+class GLeaf2(GLeaf):
+  pass
+class GTop(Component):
+  def construct(s, dims):
+    s.in_ = InPort(8)
+    def mk(d): return GLeaf() if not d else [mk(d[1:]) for _ in range(d[0])]
+    s.g = mk(dims)
+    def each(x, f):
+      if isinstance(x, list):
+        for y in x: each(y, f)
+      else: f(x)
+    each(s.g, lambda c: connect(c.in_, s.in_))
+"""
+
+
+def run_replace_names_case(sh, case):
+  """names after replace_component / replace_component_with_obj on an element of a 1-, 2- or 3-dimensional list of components (once,
+  or two elements one after the other): every object still has a name of its own that evaluates back to it, and the set of
+  names is the one of the untouched design"""
+  from vlib import specgen as G
+  rng = sh.rng("replnames", case)
+  dims = [rng.randrange(1, 4) for _ in range(rng.choice([1, 2, 2, 3]))]
+  mod = G.load_source(GRID_SRC, "c14grid")
+  try:
+    ref = mod.GTop(dims); ref.elaborate()
+    want = sorted(repr(o) for o in ref.get_all_object_filter(lambda x: True))
+    top = mod.GTop(dims); top.elaborate()
+    hist = []
+    for _ in range(rng.randrange(1, 3)):
+      idx = [rng.randrange(d) for d in dims]
+      tgt = top.g
+      for i in idx: tgt = tgt[i]
+      how = rng.choice(["class", "obj"])
+      try:
+        if how == "class": top.replace_component(tgt, mod.GLeaf2)
+        else: top.replace_component_with_obj(tgt, mod.GLeaf2())
+      except Exception as e:
+        sh.violation("replace-of-a-list-element-raised", {"dims": dims, "index": idx, "how": how, "error": f"{type(e).__name__}: {str(e)[:200]}"}, case=("replnames", case)); return
+      hist.append((idx, how))
+    sh.count("list_element_replacements_named")
+    objs = list(top.get_all_object_filter(lambda x: True))
+    names = {}
+    for o in objs:
+      r = repr(o); sh.count("objects_roundtripped")
+      if r in names and names[r] is not o:
+        sh.violation("two-objects-share-a-name", {"name": r, "after": hist, "dims": dims}, case=("replnames", case)); return
+      names[r] = o
+      try: back = eval(r, {"s": top})
+      except Exception as e: back = e
+      if back is not o:
+        sh.violation("eval-of-name-yields-other-object", {"name": r, "got": repr(back)[:80], "after": hist, "dims": dims, "stream": "replacement in a list of lists"}, case=("replnames", case)); return
+    if sorted(names) != want:
+      sh.violation("names-after-replacement-differ-from-the-untouched-design", {"after": hist, "dims": dims, "only_after": sorted(set(names) - set(want))[:5], "missing": sorted(set(want) - set(names))[:5]}, case=("replnames", case))
+  finally:
+    G.unload(mod)
+
+
 def run_fieldname_case(sh, case):
   """bitstruct fields named like attributes of the signal classes ( inverse, get_type, elaborate ... ): the field signal s.x.<f>
   exists, is named and evaluates back - or the signal of that struct type is refused when it is created"""
@@ -595,6 +658,7 @@ def run_shard(sh):
   for case in range(6 if sh.tier == "quick" else 40):
     if sh.only is None: run_fieldname_case(sh, sh.idx * 100 + case)
     if sh.only is None: run_foreign_assign_case(sh, sh.idx * 100 + case)
+    if sh.only is None: run_replace_names_case(sh, sh.idx * 100 + case)
   for case in range(4):
     if sh.only is None: run_adapter_case(sh, case)
   for case in range(8 if sh.tier == "quick" else 50):
